@@ -8,18 +8,21 @@ From Coq Require Import NArith List Arith Bool.
 From Dolt Require Import Graph.CommitDag C18.Model C18.Spec.
 Import ListNotations.
 
-Definition input := (list (list N) * list N)%type.
+(* ((parent lists, rank per commit), commits whose stored closure is reported) *)
+Definition input := ((list (list N) * list N) * list N)%type.
 
 Record obs := {
   o_heights  : list N;
   o_parents  : list (list N);
-  o_closures : list (list (N * N));     (* (height, commit), descending key order *)
+  o_closures : list (list (N * N));     (* per selected commit: (height, commit), descending key order *)
   o_stable   : bool                     (* every commit re-read at the end: same address, same bytes *)
 }.
 
 Definition case := (input * obs)%type.
 
-Definition hist_of (i : input) : hist := map (map N.to_nat) (fst i).
+Definition hist_of (i : input) : hist := map (map N.to_nat) (fst (fst i)).
+Definition ranks_of (i : input) : list nat := map N.to_nat (snd (fst i)).
+Definition sel_of (i : input) : list nat := map N.to_nat (snd i).
 
 (* rank per commit from the exported permutation; made injective outside the
    table so that the model's hypothesis is a checkable property of the table *)
@@ -35,10 +38,10 @@ Definition key_of_N (k : N * N) : nat * nat := (N.to_nat (fst k), N.to_nat (snd 
 
 Definition model_obs (i : input) : obs :=
   let h := hist_of i in
-  let s := store_of (rank_of (map N.to_nat (snd i))) h in
+  let s := store_of (rank_of (ranks_of i)) h in
   {| o_heights := map (fun c => N.of_nat (c_height c)) s;
      o_parents := map (fun c => map N.of_nat (c_parents c)) s;
-     o_closures := map (fun c => map key_to_N (rev (c_closure c))) s;
+     o_closures := map (fun c => map key_to_N (rev (c_closure (get s c)))) (sel_of i);
      o_stable := true |}.
 
 Fixpoint list_eqb {A : Type} (eqb : A -> A -> bool) (a b : list A) : bool :=
@@ -65,7 +68,7 @@ Definition oracle (i : input) (o : obs) : bool :=
   let h := hist_of i in
   let oh := map N.to_nat (o_heights o) in
   heights_okb h oh
-  && closures_okb h oh (map (map key_of_N) (o_closures o))
+  && closures_okb h oh (sel_of i) (map (map key_of_N) (o_closures o))
   && o_stable o.
 
 Definition check_case (c : case) : N :=
